@@ -346,8 +346,20 @@ def gen_create(rng, tree):
     conts = [(p, n) for p, n in model.walk(tree) if n.kind in ("m", "l")]
     # containers reachable through set members are not addressable
     pos, node = rng.choice(conts)
+    # A null leaf as the end of the existing prefix ("key:" left empty, to be
+    # filled in later): the tail has to grow out of the placeholder.
+    nulls = [(p, n) for p, n in model.walk(tree)
+             if p and n.kind == "s" and n.value == ("null", None)
+             and n.anchor is None]
+    if nulls and rng.random() < 0.2:
+        pos, node = rng.choice(nulls)
     tail = []
-    if node.kind == "m":
+    if node.kind == "s":
+        if rng.random() < 0.6:
+            tail.append(("k", ("str", rng.choice(["zz", "sub", "new key"]))))
+        else:
+            tail.append(("i", rng.choice([0, 0, 1])))
+    elif node.kind == "m":
         used = {k for k, _ in node.items}
         fresh = [k for k in ("zz", "yy", "q1", "new key", "n.k", "zz2",
                              "zz3", "zz4", "zz5", "zz6", "zz7", "zz8")
@@ -445,7 +457,8 @@ class Session:
     # -- the same edit through the real yaml-set entry point ------------
     TARGET = "/sim/w/doc.yaml"
 
-    def run_cli(self, argv, prop, what, expect_failure=False):
+    def run_cli(self, argv, prop, what, expect_failure=False,
+                allow_refusal=False):
         recipe = {"tool": "yaml-set", "argv": argv + [self.TARGET],
                   "files": {self.TARGET: self.text}, "knobs": self.knobs,
                   "stdin": "", "tty": True}
@@ -453,6 +466,9 @@ class Session:
         after = res.fs.get(self.TARGET, b"").decode("utf-8", "replace")
         if expect_failure:
             return res, after
+        if res.exit != 0 and allow_refusal and not res.traceback \
+                and after == self.text:
+            return None, after
         if res.exit != 0:
             if res.traceback and res.traceback.startswith("KeyError") \
                     and "<<:" in self.text:
@@ -693,7 +709,17 @@ class Session:
             self.stats["skipped"] += 1
             return
         holder = model.at(tree, base)
-        if holder.kind not in ("m", "l") or \
+        grown = holder.kind == "s" and holder.value == ("null", None) \
+            and holder.anchor is None and len(base) > 0
+        if grown:
+            # Existing prefix ends at a null placeholder.  Both clauses of
+            # the property cannot hold at once here (the path can only
+            # resolve if the null becomes a container), so two outcomes are
+            # accepted: a refusal that changes nothing, or the placeholder
+            # growing into exactly the missing tail.  Writing the value
+            # anywhere else is a violation.
+            self.stats["forms"].add("create-under-null")
+        elif holder.kind not in ("m", "l") or \
                 (holder.kind == "m") != (tail[0][0] == "k"):
             self.stats["skipped"] += 1
             return
@@ -714,8 +740,12 @@ class Session:
         self.stats["matched"] += 1
         self.stats["last_mutator"] = "C09"
         if self.cli:
-            self.run_cli(["--change=" + path] + self.cli_value(value, None),
-                         "C09", "create " + path)
+            done, _txt = self.run_cli(
+                ["--change=" + path] + self.cli_value(value, None),
+                "C09", "create " + path, allow_refusal=grown)
+            if done is None:
+                self.stats["refused"] += 1
+                return
         try:
             if self.cli:
                 pass
@@ -725,6 +755,13 @@ class Session:
             else:
                 self.proc.set_value(path, value, mustexist=False)
         except YAMLPathException as ex:
+            if grown:
+                if model.canon(model.build(self.doc)) != model.canon(tree):
+                    raise Violation(
+                        "C09", "refused-creation-changed-document",
+                        {"path": path, "error": str(ex)[:200]}) from ex
+                self.stats["refused"] += 1
+                return
             raise Violation("C09", "creation-refused",
                             {"path": path, "error": str(ex)[:200]}) from ex
         except Exception as ex:  # pylint: disable=broad-except
@@ -732,6 +769,11 @@ class Session:
                             {"path": path, "error": str(ex)[:200]}) from ex
         after = model.build(self.doc)
         full = base + tail
+        if grown:
+            # from here on the placeholder counts as the (empty) container
+            # it has to become
+            pre_nodes[base] = ("m", ()) if tail[0][0] == "k" else ("l", ())
+            holder = model.MNode("m" if tail[0][0] == "k" else "l", [])
         # (a) the path now resolves to the supplied value
         try:
             leaf = model.at(after, full)
@@ -786,8 +828,10 @@ class Session:
         for seg in tail:
             parent = model.at(after, cursor)
             if seg[0] == "i":
-                old = len(model.at(tree, cursor).items) \
-                    if model.exists(tree, cursor) else 0
+                old = 0
+                if model.exists(tree, cursor) and \
+                        model.at(tree, cursor).kind == "l":
+                    old = len(model.at(tree, cursor).items)
                 if len(parent.items) != max(old, seg[1] + 1):
                     raise Violation("C09", "sequence-padded-beyond-index",
                                     {"path": path, "at": render(cursor, "/"),
